@@ -60,6 +60,21 @@ def make_new_world(rng, w, unseen_prob):
                     cols["C(g, Sum)"]["v"][r] = UNSEEN_CODE
             new[v] = s
             touched.add(v)
+    # an unordered categorical that declares a category no row uses (left over after a filter): not an unseen level
+    for v in ("f", "g", "h"):
+        if rng.random() < 0.2 and not isinstance(w.df[v].dtype, pd.CategoricalDtype):
+            vals = list(new[v])
+            new[v] = pd.Categorical(vals, categories=sorted(set(vals)) + ["zz_declared_but_unused"])
+    # row labels are not row positions (a frame that was sorted, sampled or filtered)
+    r = rng.random()
+    if r < 0.3:
+        lab = list(range(n2))
+        rng.shuffle(lab)
+        new.index = lab
+    elif r < 0.5:
+        new.index = [10 * n2 + 3 * i for i in range(n2)]
+    elif r < 0.6:
+        new.index = [rng.choice(["a", "b"]) for _ in range(n2)]
     return new, {"n": n2, "cols": cols}, touched
 
 
